@@ -31,7 +31,7 @@ def key_pools():
         INT: [i(-1), i(0), i(2)],
         STR: [s('a'), s('B'), s('ab')],
         P(INT, STR): [p(i(1), s('b')), p(i(2), s('a')), p(i(1), s('a'))],
-        OR(INT, STR): [left(i(2)), right(s('a')), left(i(1))],
+        OR(INT, STR): [right(s('b')), left(i(2)), right(s('a')), left(i(1))],
         OPT(INT): [some(i(1)), none, some(i(-1))],
         ADDR: [addr(4, 1), addr(0, 200), addr(6, 3)],
     }
